@@ -275,12 +275,20 @@ def model_classes(mod: Module) -> dict[str, dict]:
     return out
 
 
-def in_list_values(validator) -> list | None:
-    """attrs.validators.in_([...]) -> the list of constants."""
+def in_list_values(validator, interp=None) -> list | None:
+    """attrs.validators.in_(<options>) -> the list of constants (<options> is constant-folded when it is not a literal
+    display: a hoisted module-level tuple, list(CONST), ...)."""
     if isinstance(validator, ast.Call) and (dotted(validator.func) or "").endswith("validators.in_") and validator.args:
         a = validator.args[0]
         if isinstance(a, (ast.List, ast.Tuple, ast.Set)) and all(isinstance(e, ast.Constant) for e in a.elts):
             return [e.value for e in a.elts]
+        if interp is not None:
+            try:
+                v = interp.eval(a, {})
+            except Exception:
+                return None
+            if isinstance(v, (list, tuple, set, frozenset)) and all(isinstance(x, (str, int)) for x in v):
+                return list(v)
     return None
 
 
